@@ -2,7 +2,7 @@
 import sympy as sp
 
 from ..facts import AnalysisBroken, walk, strip_targs
-from ..pp import pp, skip
+from ..pp import pp, skip, canon_text as CT
 from ..util import (args, assignment, callee, incdec, is_call, obj, strip_not, literal_value, find_var, parameter_name, writes_in,
                     root_of, unwrap_view)
 from ..util import ref_decl_v as ref_decl
@@ -174,7 +174,7 @@ def rule_guard(F, R):
     loops = [x for x in f.nodes() if x["k"] == "for" and "m_iters" in pp(x["c"][0])]
     guard = None
     for b in cfg.blocks.values():
-        if b.cond is not None and pp(b.cond) in ("(mGxh >= 0)", "(mGxh >= 0.0)"):
+        if b.cond is not None and pp(b.cond) in (CT("(mGxh >= 0)"), CT("(mGxh >= 0.0)")):
             guard = b
     ok = guard is not None and len(loops) == 1
     if ok:
